@@ -4,7 +4,9 @@ spec/treeorder/ObjTree.tla + TreeOrder.tla model the object tree (Add = AddConte
 AddRawChanges with its in-memory / rebuild-from-storage paths, reduction, Reopen, history trees)
 and state the order properties.  1. exhaustive TLC.  2. spec -> code: behaviours emitted by
 TreeOrderGen.tla (every transition of the small graph, simulated behaviours of the larger one) are
-executed on real object trees (chosen ids; a sample also on the signed path with mined content ids).
+executed on real object trees (chosen ids; a sample also on the signed path with mined content ids);
+they include rejected deliveries (a payload that attaches and is refused by the validator) followed by
+a further step.
 3. code -> spec: random larger honest histories on real trees are checked by the Go oracles and
 their recorded steps are validated by TreeOrderTrace.tla (all invariants on the recorded states).
 """
@@ -70,13 +72,16 @@ def run(ctx):
         emit_and_replay(ctx, "TreeOrderGen_q.cfg", {}, test_env={"VERIF_SIGNED_EVERY": 4})
         emit_and_replay(ctx, "TreeOrderGen_t.cfg", {}, timeout=3000, test_env={"VERIF_SIGNED_EVERY": 25})
         emit_and_replay(ctx, "TreeOrderGen_sim.cfg", {}, simulate=250, depth=11, timeout=3000, test_env={"VERIF_SIGNED_EVERY": 10})
+        # every <rejected delivery to a multi-head tree, next step> of the <= 4-change graph (single-change deliveries)
+        emit_and_replay(ctx, "TreeOrderGen_rej_t.cfg", {}, timeout=3000, test_env={"VERIF_SIGNED_EVERY": 20})
     else:
         emit_and_replay(ctx, "TreeOrderGen_q.cfg", {}, test_env={"VERIF_SIGNED_EVERY": 60})
         emit_and_replay(ctx, "TreeOrderGen_sim.cfg", {}, simulate=8, depth=11, test_env={"VERIF_SIGNED_EVERY": 4})
     # 3. code -> spec: random honest histories, Go oracles + trace validation
     trace = os.path.join(ctx.scratch, "treeorder-trace.ndjson")
     rep = ctx.go_test("./treeorder", run="TestRandomOrder$", timeout=2400,
-                      env={"VERIF_TRACE_OUT": trace, "VERIF_RUNS": 120 if thorough else 12, "VERIF_MAX_CHANGES": 14})
+                      env={"VERIF_TRACE_OUT": trace, "VERIF_RUNS": 150 if thorough else 30,
+                           "VERIF_TRACE_RUNS": 100 if thorough else 8, "VERIF_MAX_CHANGES": 14})
     events = int(rep["extra"].get("trace_events", 0))
     ctx.cov["trace_events_validated"] = events
     if thorough:
